@@ -149,6 +149,22 @@ def corpus():
     out.append(case('text/plain', b'x', cl_raw='abc', access='body'))
     out.append(case(CT_MP, wire, cl_raw='abc', te='chunked', mem=64))            # parsed even when chunked
     out.append(case('text/plain', b'{}', cl_raw='abc', access='json'))             # body never read: 200
+    # ---- per-part headers beyond Content-Disposition: the part's own Content-Type (with a charset Python knows, does
+    # not know, or that is not a text codec), Content-Transfer-Encoding, duplicates, on TEXT parts and on uploads
+    for cs in (b'utf-8', b'latin-1', b'klingon', b'x-user-defined', b'hex', b'base64', b'', b'"utf-8"', b'"klingon"',
+               b'utf-16', b'undefined', b'unicode_escape'):
+        out.append(case(CT_MP, part(CD + b'name="a"', b'\xc3\xa9v', b'\r\nContent-Type: text/plain; charset=' + cs) + END))
+    out.append(case(CT_MP, b'--XyZ\r\nContent-Type: text/plain; charset=klingon\r\n' + CD + b'name="a"\r\n\r\nv\r\n' + END))
+    out.append(case(CT_MP, part(CD + b'name="a"', b'aGk=', b'\r\nContent-Transfer-Encoding: base64\r\nContent-Type: text/plain; charset=hex')
+                    + END, access='POST'))
+    out.append(case(CT_MP, part(CD + b'name="a"', b'v', b'\r\nContent-Type: text/plain; charset=utf-8\r\nContent-Type: x/y; charset=klingon')
+                    + END))
+    out.append(case(CT_MP, part(CD + b'name="f"; filename="x"', b'\xff', b'\r\nContent-Type: text/plain; charset=klingon') + END,
+                    access='files'))
+    out.append(case(CT_MP, part(CD + b'name="a"', b'v' * 30, b'\r\nContent-Type: text/plain; charset=klingon') + END, mem=17,
+                    cl='len', chunked=False))
+    wire2 = F.chunked(part(CD + b'name="a"', b'v', b'\r\nContent-Type: text/plain; charset=x-user-defined') + END, [9, 4])
+    out.append(case(CT_MP, wire2, cl=-1, chunked=True, mem=64))
     # ---- header lines that make a backtracking option regex explode (the "never hangs" clause): long runs of
     # backslashes / quotes / semicolons inside a quoted parameter that is not properly closed
     out.append(case(CT_MP, part(CD + b'name="' + b'\\' * 40, b'v') + END))                 # no closing quote
@@ -164,10 +180,48 @@ FRAG = [b'--XyZ', b'\r\n', b'--', b'\r', b'\n', b'Content-Disposition', b': ', b
         b'--XyZ--', b'\r\n\r\n', b'\xc2\x85', b'\x0b', b'\xe2\x80\xa8', b'\r\n--XyZ', b'\r\n--XyZ\r\n', b'\n\r\n']
 
 
+CHARSETS = [b'utf-8', b'UTF-8', b'latin-1', b'iso-8859-1', b'ascii', b'utf-16', b'cp1252', b'x-user-defined', b'klingon',
+            b'hex', b'base64', b'rot13', b'zlib', b'idna', b'punycode', b'unicode_escape', b'undefined', b'', b'"utf-8"',
+            b'"klingon"', b'utf-8; x=y', b'\xc3\xa9', b'utf 8', b'mbcs', b'utf-8\x00']
+EXTRA_HEADERS = [b'Content-Transfer-Encoding: binary', b'Content-Transfer-Encoding: base64', b'Content-Transfer-Encoding: 8bit',
+                 b'Content-Length: 3', b'Content-Length: abc', b'X-Custom: a; b=c; d="e;f"', b'Content-Type: text/html',
+                 b'content-type: text/plain; charset=klingon', b'Content-ID: <x@y>', b'Content-Disposition: attachment',
+                 b'Content-Type: multipart/mixed; boundary=inner', b'Content-Type:', b'Content-Type: ;charset=utf-8',
+                 b'Content-Type: text/plain; CHARSET=KLINGON', b'Content-Type: text/plain; charset']
+
+
+def part_headers(rng):
+    """per-part headers beyond Content-Disposition: a Content-Type with parameters (charset known / unknown / not a
+    text codec / empty / quoted), Content-Transfer-Encoding, duplicates; returns (before, after) Content-Disposition"""
+    hs = []
+    if rng.random() < 0.6:
+        ct = rng.choice([b'text/plain', b'text/plain', b'application/octet-stream', b'text/x; format=flowed'])
+        hs.append(b'Content-Type: ' + ct + b'; charset=' + rng.choice(CHARSETS))
+    for _ in range(rng.choice([0, 0, 1, 1, 2])):
+        hs.append(rng.choice(EXTRA_HEADERS))
+    if hs and rng.random() < 0.15:
+        hs.append(hs[0])                                           # a duplicated header
+    rng.shuffle(hs)
+    k = rng.randrange(0, len(hs) + 1) if rng.random() < 0.3 else 0
+    before = b''.join(h + b'\r\n' for h in hs[:k])
+    after = b''.join(b'\r\n' + h for h in hs[k:])
+    return before, after
+
+
 def good_multipart(rng):
     parts = []
     for _ in range(rng.randrange(0, 4)):
         nm = rng.choice([b'a', b'b', b'a;b', b'\xc3\xa9', b''])
+        if rng.random() < 0.45:
+            before, after = part_headers(rng)
+            val = rng.choice([b'v', b'v' * 25, b'\xc3\xa9', b'\xff\xfe', b'aGk=', b'', b'\r\n-'])
+            kind = rng.random()
+            if kind < 0.7:
+                disp = CD + b'name="' + nm + b'"'
+            else:
+                disp = CD + b'name="' + nm + b'"; filename="' + rng.choice([b'f.txt', b'']) + b'"'
+            parts.append(b'--XyZ\r\n' + before + disp + after + b'\r\n\r\n' + val + b'\r\n')
+            continue
         if rng.random() < 0.4:
             fn = rng.choice([b'f.txt', b'', b'x;y'])
             data = bytes(rng.choice([13, 10, 45, 88, 255, 0]) for _ in range(rng.randrange(0, 14)))
